@@ -181,6 +181,10 @@ class Sem:
             om = sum(1 << k for k, f in enumerate(fl) if s.flag_or(f))
             am = sum(1 << k for k, f in enumerate(fl) if s.flag_and(f))
             s.ctx.log.append(('F', 0, om | (am << 8)))
+        elif s.probe == 'ids_root':
+            m = s.prog.root
+            for r, name in enumerate(s.c.m[m.name]['active']):
+                s.ctx.log.append(('F', 100 + r, m.states[name].idx))
         elif s.probe == 'ids':
             for m in s.c.active_machines():
                 for r, name in enumerate(s.c.m[m.name]['active']):
